@@ -106,7 +106,33 @@ def check_seq(t, r, start, new):
                     return (f"zero-length child {c[2]} sitting at start={start} was not moved later by d={d} "
                             "(everything from start onwards has to move)")
             o += sp.dur(c)
+    # "content and order intact": no container disappears or loses its kind / tag / tempo. Containers that start before
+    # `start` and end behind it are divided (their kind / tag / tempo then occurs on both halves), all others occur as before
+    have = metas(r, None)
+    for m, n in metas(t, start).items():
+        if have.get(m, 0) < n:
+            return (f"{n} container(s) of kind / tag / tempo {m} below the receiver before, {have.get(m, 0)} afterwards "
+                    "(nested containers - empty ones included - keep their place, kind, tag and tempo; a divided one keeps them on both halves)")
     return None
+
+
+def metas(t, start, off=0, top=True, in_divided_sim=False):
+    """multiset of (kind, tag, tempo) of the containers strictly below the root; with `start` given, zero-length containers
+    inside a simultaneity that is divided at `start` are left out (dividing a simultaneity drops voices without a part)"""
+    from collections import Counter
+    c = Counter()
+    if t[0] == "L":
+        return c
+    leafless = sp.dur(t) == 0       # no leaf, or zero-length leaves only
+    if not top and not (leafless and in_divided_sim):
+        c[(t[0], t[1], t[2])] += 1
+    divided = start is not None and t[0] == "P" and not top and off < start < off + sp.dur(t)
+    o = off
+    for k in sp.kids(t):
+        c.update(metas(k, start, o, False, in_divided_sim or divided))
+        if t[0] == "S":
+            o += sp.dur(k)
+    return c
 
 
 def oracle(case, io, mo):
